@@ -115,8 +115,11 @@ def body_align(E, cfg):
 def configs_align(tier):
     cfgs = [dict(KR=2, KQ=2, NP=1), dict(KR=3, KQ=2, NP=1), dict(KR=2, KQ=1, NP=2), dict(KR=2, KQ=2, NP=2, seed_order="asc")]
     if tier != "quick":
-        cfgs += [dict(KR=3, KQ=3, NP=1), dict(KR=3, KQ=2, NP=2, seed_order="asc"), dict(KR=2, KQ=2, NP=2, sj="0"),
-                 dict(KR=2, KQ=1, NP=3, seed_order="asc"), dict(KR=3, KQ=2, NP=2, seed_order="asc", ss=1)]
+        # join multiplier 0 on the larger multi-seed configurations: the non-linear join score made 311 paths inconclusive (60 s
+        # solver timeouts) in the first thorough run; admissibility, which is what differs between strands, does not depend on it
+        cfgs += [dict(KR=3, KQ=3, NP=1), dict(KR=3, KQ=2, NP=2, seed_order="asc", sj="0"), dict(KR=2, KQ=2, NP=2, sj="0"),
+                 dict(KR=2, KQ=1, NP=3, seed_order="asc", sj="0"), dict(KR=3, KQ=2, NP=2, seed_order="asc", ss=1, sj="0"),
+                 dict(KR=2, KQ=3, NP=2, seed_order="asc", sj="0")]
     return cfgs
 
 
